@@ -232,7 +232,13 @@ func (g *mdGen) block(d int) string {
 	case x < 3:
 		return g.para()
 	case x == 3:
-		return strings.Repeat("#", 1+g.r.Intn(6)) + " " + g.inline(1)
+		// a heading's text is all of its text: a brace group at its end ("{#id}", "{.cls}", "{}", "{k=v}" - attribute syntax of other
+		// markdown dialects) is literal text here, in ATX headings (with and without a closing sequence) and in Setext headings
+		tail := []string{"", "", "", " {#intro}", " {.lead}", " {}", " {key=value}", " {#a .b}", " {x}", "{#tight}", " {#id} ##", " \\{#esc}", " {#one} {.two}"}[g.r.Intn(13)]
+		if g.r.Intn(5) == 0 {
+			return g.words(1+g.r.Intn(2)) + tail + "\n" + []string{"===", "---"}[g.r.Intn(2)]
+		}
+		return strings.Repeat("#", 1+g.r.Intn(6)) + " " + g.inline(1) + tail
 	case x == 4:
 		return "```" + []string{"", "go", "html"}[g.r.Intn(3)] + "\n" + []string{"x := 1", "if a < b && c > d {}", "<div>{{ v }}</div>", "  indented\n\ttab"}[g.r.Intn(4)] + "\n```"
 	case x == 5:
